@@ -256,7 +256,7 @@ func fingerprintWorld(w *World) string {
 
 func runC04(run *Run, replay string) {
 	run.Res.Rule = "same scenario generator as C01 (dependent bodies at two levels, nested blocks, dynamic/count/for_each extensions); a structural fingerprint of every path context (schema tree incl. dependent bodies and constraints, file bytes up to capacity and syntax trees, functions, collected targets/origins) is taken before and compared after every query, including queries that return errors or panic; a reflection-based deep comparison of the schema against a private clone is made at the end of each scenario; exported helpers (NewSchemaKey) are checked not to reorder their arguments; distinct non-trivial = distinct (file text, query, offset) executed"
-	o := Omni{Bases: 45, PosSample: 14, OnlyBase: -1, Opts: ScenarioOpts{Histories: 3, Gen: GenOpts{MaxDepth: 2}}}
+	o := Omni{Bases: 36, PosSample: 14, OnlyBase: -1, Opts: ScenarioOpts{Histories: 3, Gen: GenOpts{MaxDepth: 2}}}
 	if run.Thorough {
 		o.Bases, o.PosSample, o.Opts.Histories = 150, 30, 6
 	}
